@@ -62,6 +62,16 @@ def parseOp? (s : String) : Option Clifford.Op :=
       if l.length < 2 then none
       else some (.applyPauli ⟨l.getD 0 false, l.getD 1 false, natOfBits (l.drop 2)⟩ (l.length - 2))
   | "I" :: _ => some .gateI
+  | ["r1", k, q] => do
+      -- random_one_qubit_gate(q) with the scripted raw draw k
+      let k ← k.toNat?
+      let q ← q.toInt?
+      if k ≥ 6 then none else some (randomOneOp k q)
+  | ["r2", k, a, b] => do
+      let k ← k.toNat?
+      let a ← a.toInt?
+      let b ← b.toInt?
+      if k ≥ 3 then none else some (randomTwoOp k a b)
   | name :: args => do
       let key ← GateKey.ofName? name
       let args ← args.mapM String.toInt?
@@ -178,6 +188,22 @@ def handle (args : List String) : String :=
       match ofFullMatrix n key.scale W with
       | none => return "error:assert"
       | some q => return pauliStr (2 * n) q
+  | ["exportraw", gates] => Id.run do
+      -- the exported circuit as raw C03 gates (`exportRawG`), and whether C03's index resolution accepts it on `numQubit` qubits
+      let some gs := (gates.splitOn ",").mapM (fun s => match s.splitOn ":" with
+        | name :: idx => do
+            let key ← GateKey.ofName? name
+            let idx ← idx.mapM String.toNat?
+            if idx.length ≠ key.arity then none else some (⟨key, idx⟩ : Gate)
+        | _ => none) | return "bad-op"
+      let rawStr : RawOp GInt → String := fun
+        | .unitary U t => s!"U {gintListStr U.toList} {natListStr (t.map Int.toNat)}"
+        | .control U c t => s!"C {gintListStr U.toList} {natListStr (c.map Int.toNat)} {natListStr (t.map Int.toNat)}"
+        | _ => "?"
+      let body := "|".intercalate (gs.map fun g => rawStr (exportRawG g))
+      match Clifford.numQubit gs with
+      | .ok n => return s!"{n} {(compileCircuit n (gs.map exportRawG)).isSome} {body}"
+      | .error _ => return s!"error {body}"
   | ["hist", ops] => Id.run do
       let some ops := (if ops = "-" then some [] else (ops.splitOn ";").mapM parseOp?) | return "bad-op"
       return "|".intercalate ((Clifford.run St.init ops).map outStr)
